@@ -1,5 +1,5 @@
 (* C02 correspondence: what an echoing backend saw and what the user got, against Model/HttpRewrite.v. *)
-From FRP Require Export Corr.Common Model.HttpRewrite Model.HttpAdmit gen.GenVhostTransport.
+From FRP Require Export Corr.Common Model.HttpRewrite Model.HttpAdmit gen.GenVhostTransport gen.GenMuxDeadline.
 Open Scope Z_scope.
 
 Fixpoint c02_list_eqb (a b : list bytes) : bool :=
@@ -66,6 +66,17 @@ Inductive case :=
    A's status, digest sent / digest the backend received, how many of the k were answered correctly,
    elapsed and bound (ms) *)
 | COverlap (k a_status : Z) (a_sent a_seen : bytes) (b_ok ms bound : Z)
+(* a TLS connection routed by the real vhost HTTPS muxer (sniffing timeout [timeout] ms) and joined with a work
+   connection that ends in the https2http plugin: the chunks the backend streamed with the age of the user
+   connection (ms) at each write, the body the user received, the ages at which the user sent its requests
+   and how many were answered *)
+| CAged (timeout : Z) (chunks : list (Z * bytes)) (got : bytes) (req_ages : list Z) (answered : Z)
+(* a request whose head is [head_bytes] long through the real vhost HTTP port: status the user got, digest of the
+   large header value as sent and as the backend saw it ([] when the backend saw nothing) *)
+| CBigHead (head_bytes status : Z) (sent seen : bytes)
+(* a body of [size] bytes through an http proxy with a bandwidth limit of [limit] bytes/s (kind 1: response,
+   server side limiter): status, digests sent / received, elapsed ms *)
+| CLimited (kind limit size status : Z) (sent got : bytes) (ms : Z)
 (* a request through frps (route rc) and then a plugin of frpc *)
 | CChain (rc : hr_route) (p : hr_plugin) (o : hr_popts) (plugin_client_ip : option bytes)
          (uq : hr_req) (reenc : bytes) (seen : c02_seen) (resp got : hr_resp).
@@ -192,6 +203,24 @@ Definition check_case (c : case) : Z :=
       else if negb (b_ok =? k) then 73
       else if negb (ms <=? bound) then 74
       else 0
+  | CAged timeout chunks got req_ages answered =>
+      match mx_at_handoff gen_mux_handle_ops (false, false) with
+      | Some (rd, wr) =>
+          if negb (bytes_eqb (mx_deliver wr timeout chunks) got) then 81
+          else if negb (rd || wr) && negb (mx_reads rd timeout req_ages =? answered) then 82
+          else 0
+      | None => 80
+      end
+  | CBigHead head_bytes status sent seen =>
+      match hsv_head_admitted gen_vhost_server_fields head_bytes with
+      | Some true => if negb (status =? 200) then 91 else if negb (bytes_eqb sent seen) then 92 else 0
+      | Some false => if status =? 431 then 0 else 93
+      | None => 90
+      end
+  | CLimited kind limit size status sent got ms =>
+      if negb (status =? 200) then 95
+      else if negb (bytes_eqb sent got) then 96
+      else 0
   | CKeep compressed answered =>
       (* [pending] (was the server's background read in flight when the handler returned) is an oracle: it is
          read off the observation (the next request got no answer <-> the read had been interrupted); the model
@@ -256,3 +285,7 @@ Definition is_keep (comp : bool) (c : case) : bool := match c with CKeep k _ => 
 Definition keep_lost (c : case) : bool := match c with CKeep _ a => existsb negb a | _ => false end.
 Definition is_admit (kind : Z) (c : case) : bool := match c with CAdmit k' _ _ _ _ _ _ _ => k' =? kind | _ => false end.
 Definition is_overlap (c : case) : bool := match c with COverlap _ _ _ _ _ _ _ => true | _ => false end.
+Definition is_aged (c : case) : bool :=
+  match c with CAged t chunks _ ages _ => existsb (fun ch => t <=? fst ch) chunks && existsb (fun a => t <=? a) ages | _ => false end.
+Definition is_bighead (c : case) : bool := match c with CBigHead n _ _ _ => 20480 <? n | _ => false end.
+Definition is_limited (c : case) : bool := match c with CLimited _ l s _ _ _ _ => l <? s | _ => false end.
